@@ -67,7 +67,9 @@ type Case struct {
 	NsBits  uint64  `json:"ns_bits,omitempty"`
 	Evs     []Ev    `json:"evs,omitempty"`
 	Obs     []Ident `json:"obs,omitempty"`
-	Source  string  `json:"source,omitempty"` // hist: stats-topic | status-endpoint
+	Times   []int64 `json:"times,omitempty"`   // rate: arrival times of reports (ms)
+	PerMsg  []int   `json:"per_msg,omitempty"` // rate: JSON values per websocket message
+	Source  string  `json:"source,omitempty"`  // hist: stats-topic | status-endpoint
 	Note    string  `json:"note,omitempty"`
 }
 
